@@ -964,11 +964,16 @@ encode:
 
     if (rc == SSL_FULL)
     {
-        psFree(out->buf, ssl->bufferPool);
-        if ((out->buf = psMalloc(ssl->bufferPool, requiredLen)) == NULL)
+        unsigned char *newbuf;
+
+        /* Allocate the larger buffer before releasing the old one so that
+           the caller's buffer stays valid if the allocation fails */
+        if ((newbuf = psMalloc(ssl->bufferPool, requiredLen)) == NULL)
         {
             return PS_MEM_FAIL;
         }
+        psFree(out->buf, ssl->bufferPool);
+        out->buf = newbuf;
         out->start = out->end = out->buf;
         out->size = requiredLen;
         goto encode;
@@ -1193,13 +1198,17 @@ int32 matrixDtlsGetOutdata(ssl_t *ssl, unsigned char **buf)
         }
 
         /* A true flight resend is needed */
-        if ((rc = dtlsResendFlight(ssl, &tmp)) < 0)
+        rc = dtlsResendFlight(ssl, &tmp);
+        /* The resend may have replaced the output buffer with a larger one
+           even if it failed afterwards: never leave ssl->outbuf dangling */
+        ssl->outbuf = tmp.buf;
+        ssl->outsize = tmp.size;
+        if (rc < 0)
         {
+            ssl->outlen = 0;
             return rc;
         }
-        ssl->outbuf = tmp.buf;
         ssl->outlen = tmp.end - tmp.start;
-        ssl->outsize = tmp.size;
     }
 
 /*
